@@ -3215,7 +3215,9 @@ class Fparser2Reader():
                 # Check that the construct-name is not referred to inside
                 # the Loop (but exclude the END DO from this check).
                 names = walk(node.content[:-1], Fortran2003.Name)
-                if construct_name in [name.string for name in names]:
+                # Fortran names are case insensitive
+                if construct_name.lower() in [name.string.lower()
+                                              for name in names]:
                     raise NotImplementedError(
                         "Unsupported label reference within DO")
 
